@@ -45,7 +45,8 @@ impl StateValidityChecker<OxmplRealVectorState> for PyStateValidityChecker {
             match result {
                 Ok(is_valid) => is_valid,
                 Err(e) => {
-                    e.print(py);
+                    // (not `print`: that hands SystemExit to the interpreter, which exits the process)
+                    e.display(py);
                     false
                 }
             }
@@ -65,7 +66,8 @@ impl StateValidityChecker<OxmplSO2State> for PyStateValidityChecker {
             match result {
                 Ok(is_valid) => is_valid,
                 Err(e) => {
-                    e.print(py);
+                    // (not `print`: that hands SystemExit to the interpreter, which exits the process)
+                    e.display(py);
                     false
                 }
             }
@@ -85,7 +87,8 @@ impl StateValidityChecker<OxmplSO3State> for PyStateValidityChecker {
             match result {
                 Ok(is_valid) => is_valid,
                 Err(e) => {
-                    e.print(py);
+                    // (not `print`: that hands SystemExit to the interpreter, which exits the process)
+                    e.display(py);
                     false
                 }
             }
@@ -105,7 +108,8 @@ impl StateValidityChecker<OxmplCompoundState> for PyStateValidityChecker {
             match result {
                 Ok(is_valid) => is_valid,
                 Err(e) => {
-                    e.print(py);
+                    // (not `print`: that hands SystemExit to the interpreter, which exits the process)
+                    e.display(py);
                     false
                 }
             }
@@ -125,7 +129,8 @@ impl StateValidityChecker<OxmplSE2State> for PyStateValidityChecker {
             match result {
                 Ok(is_valid) => is_valid,
                 Err(e) => {
-                    e.print(py);
+                    // (not `print`: that hands SystemExit to the interpreter, which exits the process)
+                    e.display(py);
                     false
                 }
             }
@@ -145,7 +150,8 @@ impl StateValidityChecker<OxmplSE3State> for PyStateValidityChecker {
             match result {
                 Ok(is_valid) => is_valid,
                 Err(e) => {
-                    e.print(py);
+                    // (not `print`: that hands SystemExit to the interpreter, which exits the process)
+                    e.display(py);
                     false
                 }
             }
